@@ -124,7 +124,17 @@ def run_one(seed, dec):
     cfg = draw_cfg(dec.stream("cfg"))
     prog = P.generate(dec.stream("prog"), cfg)
     rc = RunCtx(ID, seed, dec, cfg)
+    from esim import values as V
+    del V.TRACKED[:]
     run_program(rc, prog, setup)
+    if rc.violation is None:
+        # objects the application handed to logging calls must not have been consumed by them
+        used = [t for t in V.TRACKED if t.pulled]
+        if used:
+            rc.fail("application_object_altered", "a one-shot iterator passed as a field value was advanced %d "
+                    "time(s) by logging" % used[0].pulled)
+        if V.TRACKED:
+            rc.probe("tracked_iterators_logged", len(V.TRACKED))
     if rc.violation is None:
         # whatever reached an actor's top level must be an exception object the script made
         for name, ex in rc.escaped:
